@@ -9,7 +9,11 @@ buffer between Write and WriteAt; it has no independent "pwrite"); a write at an
 extends the file with zeros, also when it writes zero bytes; `Seek` follows io.Seeker (negative target or
 unknown whence ⇒ error, nothing changes) and — as the DagModifier does eagerly — extends the file with
 zeros when the target lies beyond the end; `Read` returns the bytes from the position, short at the end;
-`Truncate` cuts or zero-extends and does not move the position.
+`Truncate` cuts or zero-extends; it does not move a position that the last write or seek established
+(`anchor`, may then lie beyond the end — as the repo's TestDagSync expects), but when it cuts below a position
+that was only reached by reading it takes the position back to `max anchor newSize` (the repo's mfs
+TestTruncateAndWrite expects the following Write at the new end).  `anchor` = the position left by the last
+Write / WriteAt / Seek; Read moves `pos` only.
 -/
 namespace C10
 open FileTree
@@ -32,6 +36,8 @@ def owRest : List UInt8 → Nat → List UInt8 → List UInt8
 structure File where
   bytes : List UInt8
   pos : Nat
+  /-- the position left by the last write or seek (reads do not move it) -/
+  anchor : Nat
 
 /-- `b` extended with zeros to length at least `n` -/
 def zext (b : List UInt8) (n : Nat) : List UInt8 := b ++ List.replicate (n - b.length) 0
@@ -62,8 +68,10 @@ inductive Out where
 
 /-- the file model -/
 def specStep (f : File) : Op → File × Out
-  | .write b => ({ bytes := pwrite f.bytes f.pos b, pos := f.pos + b.length }, .wrote b.length)
-  | .writeAt b off => ({ bytes := pwrite f.bytes off b, pos := off + b.length }, .wrote b.length)
+  | .write b => ({ bytes := pwrite f.bytes f.pos b, pos := f.pos + b.length, anchor := f.pos + b.length },
+      .wrote b.length)
+  | .writeAt b off => ({ bytes := pwrite f.bytes off b, pos := off + b.length, anchor := off + b.length },
+      .wrote b.length)
   | .seek off whence =>
     let target : Option Int :=
       if whence = 1 then some ((f.pos : Int) + off)
@@ -72,9 +80,12 @@ def specStep (f : File) : Op → File × Out
       else none
     match target with
     | none => (f, .err)
-    | some t => if t < 0 then (f, .err) else ({ bytes := zext f.bytes t.toNat, pos := t.toNat }, .pos t)
+    | some t => if t < 0 then (f, .err)
+      else ({ bytes := zext f.bytes t.toNat, pos := t.toNat, anchor := t.toNat }, .pos t)
   | .read k => ({ f with pos := f.pos + ((f.bytes.drop f.pos).take k).length }, .data ((f.bytes.drop f.pos).take k))
-  | .truncate sz => ({ f with bytes := (zext f.bytes sz).take sz }, .ok)
+  | .truncate sz =>
+    ({ f with bytes := (zext f.bytes sz).take sz,
+              pos := if sz < f.bytes.length ∧ f.pos > sz then max f.anchor sz else f.pos }, .ok)
   | .size => (f, .size f.bytes.length)
   | .sync => (f, .ok)
   | .getNode => (f, .content f.bytes)
@@ -101,7 +112,13 @@ def DM.bytes (s : DM) : List UInt8 :=
   | none => content s.cur
   | some buf => pwrite (content s.cur) s.writeStart buf
 
-def abs (s : DM) : File := { bytes := s.bytes, pos := s.curWrOff }
+/-- where the last write or seek left the offset: `writeStart` once flushed, `curWrOff` while a write is pending -/
+def DM.anchor (s : DM) : Nat :=
+  match s.wrBuf with
+  | none => s.writeStart
+  | some _ => s.curWrOff
+
+def abs (s : DM) : File := { bytes := s.bytes, pos := s.curWrOff, anchor := s.anchor }
 
 def runModel (c : Cfg) : DM → List Op → List Out
   | _, [] => []
